@@ -75,6 +75,8 @@ type jobResult struct {
 	CrashPoints int
 	Deadlocks   int
 	SmtLogs     []string
+	EngineErrors     []string
+	EngineErrorPaths int
 }
 
 func (r *propRun) explore(j Job) *jobResult {
@@ -192,7 +194,21 @@ func (r *propRun) explore(j Job) *jobResult {
 				}
 				mu.Unlock()
 
-				m.Run(phases, p)
+				func() {
+					// an interpreter limitation hit by this path must not take the whole check down
+					defer func() {
+						if x := recover(); x != nil {
+							mu.Lock()
+							if len(res.EngineErrors) < 5 {
+								res.EngineErrors = append(res.EngineErrors, fmt.Sprintf("%v", x))
+							}
+							res.EngineErrorPaths++
+							mu.Unlock()
+							m.ResetAfterEngineError()
+						}
+					}()
+					m.Run(phases, p)
+				}()
 
 				mu.Lock()
 				work = append(work, local...)
